@@ -18,6 +18,7 @@ import YtkProofs.HeapBuilder
 import YtkProofs.HeapBuilderRefine
 import YtkProofs.HeapBuild
 import YtkProofs.HeapBuilderRun
+import YtkProofs.HeapBuilderHist
 
 namespace Ytk.C03
 
@@ -548,6 +549,110 @@ theorem nonvacuous_heap_tree_run :
       simp only [Bool.and_eq_true, decide_eq_true_eq] at key
       exact ⟨h2, .cons hok1 he1 (.cons hok2 he2 (.nil _)), key.1, key.2⟩
 
+/-! ### Whole histories that mix calls on handles with calls on the root
+
+  `HandleRun root h ops bops h'` (YtkProofs/HeapBuilderHist.lean) is the CORRESPONDENCE OF HISTORIES:
+  the heap-level history `ops` (each call addressed by the ADDRESS of the handle it is made on) runs
+  from `h` to `h'`, and `bops` is the value-level history that corresponds to it:
+
+    * a call on a handle that is LIVE at the path string `p` when the call is made (`LiveAt`: the root
+      for `p = ""`, otherwise the node `root.Lookup(p)` returns in the current heap) contributes the
+      explicit function `HOp.atPath p vn op` — on the root the root-level `BOp` (`HOp.toBOp`), on a
+      handle the PATH-LEVEL call at `utils.ToPath(p, name)`: `x.AddValue(name, v)` ↦
+      `AddValueAt(p.name, v)`, `x.AddContainer(name)` ↦ `AddValueAt(p.name, {})`, `x.Remove(name)` ↦
+      `RemoveAt(p.name)`, `x.AddValueAt(q, v)` ↦ `AddValueAt(p.q, v)`, `l.Set(i, v)` ↦ the list call
+      addressed by `p`, `Child` / `Lookup` ↦ nothing; the call must be `HOp.TreeOk` (as in
+      `heap_run_tree`), `vn` is the abstraction of its value node;
+    * a call on a DETACHED handle (`Apart h root target`, `HOp.Ok` as in `heap_run_closed`)
+      contributes NOTHING.
+
+  Two kinds of handle calls have no `BOp` and are outside the relation (`HOp.atSub` = `none`): a member
+  name containing '.' (the handle call stores the literal key, every path-level call would split it),
+  and `Walk(CompactFn)` on a sub-container (`BOp.compact` is the root call). -/
+
+/-- WHOLE-HISTORY REFINEMENT WITH HANDLES: for every history of builder calls on the root, on live
+    handles (containers and lists, also handles sitting in list slots: `p = "a.l[2]"`) and on detached
+    handles, started in a well-formed tree-shaped document, every invariant of `heap_run_closed` /
+    `heap_run_tree` holds at the end, `hrun` succeeds, and the abstraction of the root is `brun` of the
+    corresponding value-level history — so every value-level law (set-get, frame, padding, `run_valid`)
+    holds for programs that keep and use handles. -/
+theorem heap_run_refines (root : Addr) (h h' : Heap) (ops : List HOp) (bops : List BOp) (d : AMap Node)
+    (hrun : HandleRun root h ops bops h') (hi : Inv h) (hs : SibSep h root) (hrl : root < h.size)
+    (hd : abs h root = some (.cont d)) :
+    Inv h' ∧ SibSep h' root ∧ root < h'.size ∧ Ytk.Heap.hrun h ops = .ok h' ∧
+      ∃ d', brun d bops = .ok d' ∧ abs h' root = some (.cont d') :=
+  hrun.refines hi hs hrl hd
+
+/-- … one live call, stated on its own: the call on the handle at `p` IS `brun` of `HOp.atPath p` -/
+theorem heap_step_live_refines (h h' : Heap) (root : Addr) (op : HOp) (ret : Option Addr) (d : AMap Node) (vn : Node)
+    (p : String) (bops : List BOp) (hi : Inv h) (hs : SibSep h root) (hrl : root < h.size)
+    (hok : op.TreeOk h root) (hlive : LiveAt h root op.target p) (hd : abs h root = some (.cont d))
+    (hv : ∀ v, op.value = some v → abs h v = some vn) (hb : op.atPath p vn = some bops)
+    (he : hstep h op = .ok (h', ret)) :
+    ∃ d', brun d bops = .ok d' ∧ abs h' root = some (.cont d') :=
+  hstep_live_refines hi hs hrl hok hlive hd hv hb he
+
+/-- the heaps of the history below -/
+def exH1 : Heap := ⟨[.leaf Scalar.null, .leaf ⟨"int", "1"⟩, .cont [("b", 1), ("z", 4)], .cont [("a", 2), ("n", 0)],
+  .leaf ⟨"string", "v"⟩]⟩
+def exH2 : Heap := ⟨[.leaf Scalar.null, .leaf ⟨"int", "1"⟩, .cont [("b", 1), ("z", 4)], .cont [("a", 5), ("n", 0)],
+  .leaf ⟨"string", "v"⟩, .cont []]⟩
+def exH3 : Heap := ⟨[.leaf Scalar.null, .leaf ⟨"int", "1"⟩, .cont [("b", 1), ("y", 1), ("z", 4)],
+  .cont [("a", 5), ("n", 0)], .leaf ⟨"string", "v"⟩, .cont []]⟩
+def exH4 : Heap := ⟨[.leaf Scalar.null, .leaf ⟨"int", "1"⟩, .cont [("b", 1), ("y", 1), ("z", 4)],
+  .cont [("a", 5), ("n", 0)], .leaf ⟨"string", "v"⟩, .cont [("l", 6)], .list []]⟩
+def exH5 : Heap := ⟨[.leaf Scalar.null, .leaf ⟨"int", "1"⟩, .cont [("b", 1), ("y", 1), ("z", 4)],
+  .cont [("a", 5), ("n", 0)], .leaf ⟨"string", "v"⟩, .cont [("l", 6)], .list [4]]⟩
+
+/-- a history on `exB` (root #3) that uses handles in every way:
+    `x := root.Child("a")` (= #2) · `x.AddValue("z", #4)` (LIVE at "a") · `y := root.AddContainer("a")`
+    (on the root; returns the new #5 and DETACHES #2) · `x.AddValue("y", #1)` (on the now detached #2:
+    invisible) · `l := y.AddList("l")` (live at "a"; returns #6) · `l.Append(#4)` (list handle, live at
+    "a.l").  The corresponding value-level history has FOUR calls, and the document is its `brun`. -/
+theorem nonvacuous_heap_run_refines :
+    HandleRun 3 exB [.addValue 2 "z" 4, .addContainer 3 "a", .addValue 2 "y" 1, .addList 5 "l", .listAppend 6 4]
+      [.addValueAt "a.z" (.leaf ⟨"string", "v"⟩), .addContainer "a", .addValueAt "a.l" (.list []),
+        .listAppend "a.l" (.leaf ⟨"string", "v"⟩)] exH5 ∧
+    abs exB 3 = some (.cont [("a", .cont [("b", .leaf ⟨"int", "1"⟩)]), ("n", Node.null)]) ∧
+    brun [("a", .cont [("b", .leaf ⟨"int", "1"⟩)]), ("n", Node.null)]
+      [.addValueAt "a.z" (.leaf ⟨"string", "v"⟩), .addContainer "a", .addValueAt "a.l" (.list []),
+        .listAppend "a.l" (.leaf ⟨"string", "v"⟩)] =
+      .ok [("a", .cont [("l", .list [.leaf ⟨"string", "v"⟩])]), ("n", Node.null)] ∧
+    abs exH5 3 = some (.cont [("a", .cont [("l", .list [.leaf ⟨"string", "v"⟩])]), ("n", Node.null)]) := by
+  refine ⟨?_, by decide +kernel, by decide +kernel, by decide +kernel⟩
+  have reach : ∀ (g : Heap) (a b : Addr), b ∈ Ytk.Heap.reach g a → Reach g a b := fun g a b hb => mem_reachF _ a b hb
+  have novalue : ∀ (g : Heap) (op : HOp), op.value = none → ∀ v, op.value = some v →
+      v < g.size ∧ SibSep g v ∧ Apart g 3 v := fun g op hn v hv => by rw [hn] at hv; cases hv
+  -- 1. x.AddValue("z", #4), x = #2 live at "a"
+  refine .live (p := "a") (vn := .leaf ⟨"string", "v"⟩) (bs := [.addValueAt "a.z" (.leaf ⟨"string", "v"⟩)])
+    (ret := none) (h1 := exH1) ⟨reach exB 3 2 (by decide), fun v hv => ?_⟩ (by decide +kernel)
+    (fun v hv => by cases hv; decide +kernel) rfl (by decide +kernel) ?_
+  · cases hv
+    obtain ⟨h1, h2, h3, _⟩ := leaf_value_ok (h := exB) (v := 4) (s := ⟨"string", "v"⟩) rfl 3
+    exact ⟨h1, h2, h3⟩
+  -- 2. root.AddContainer("a")
+  refine .live (p := "") (vn := Node.null) (bs := [.addContainer "a"]) (ret := some 5) (h1 := exH2)
+    ⟨.refl _, novalue exH1 _ rfl⟩ (by decide +kernel) (fun v hv => by cases hv) rfl
+    (by decide +kernel) ?_
+  -- 3. x.AddValue("y", #1) on the DETACHED #2
+  refine .detached (ret := none) (h1 := exH3) ⟨by decide, fun v hv => ?_⟩ (apart_of_apartB (by decide +kernel))
+    (by decide +kernel) ?_
+  · cases hv
+    obtain ⟨h1, _, _, h4⟩ := leaf_value_ok (h := exH2) (v := 1) (s := ⟨"int", "1"⟩) rfl 2
+    exact ⟨h1, h4⟩
+  -- 4. y.AddList("l"), y = #5 live at "a"
+  refine .live (p := "a") (vn := Node.null) (bs := [.addValueAt "a.l" (.list [])]) (ret := some 6) (h1 := exH4)
+    ⟨reach exH3 3 5 (by decide), novalue exH3 _ rfl⟩ (by decide +kernel) (fun v hv => by cases hv)
+    rfl (by decide +kernel) ?_
+  -- 5. l.Append(#4), l = #6 live at "a.l"
+  refine .live (p := "a.l") (vn := .leaf ⟨"string", "v"⟩) (bs := [.listAppend "a.l" (.leaf ⟨"string", "v"⟩)])
+    (ret := none) (h1 := exH5) ⟨reach exH4 3 6 (by decide), fun v hv => ?_⟩ (by decide +kernel)
+    (fun v hv => by cases hv; decide +kernel) rfl (by decide +kernel) (.nil _)
+  cases hv
+  obtain ⟨h1, h2, h3, _⟩ := leaf_value_ok (h := exH4) (v := 4) (s := ⟨"string", "v"⟩) rfl 3
+  exact ⟨h1, h2, h3⟩
+
 end heap
+
 
 end Ytk.C03
